@@ -209,6 +209,45 @@ def rewritten_form_is_another_assertion(state):
     return False
 
 
+def preprocessed_form_is_another_assertion(state, logic, decls, budget=80):
+    """semantic generalisation of rewritten_form_is_another_assertion (violation path only; untrusted z3): a CURRENT
+    assertion is equivalent to another top-level assertion of the history that is written differently (simplification may
+    turn the one into the other's term)"""
+    if rewritten_form_is_another_assertion(state):
+        return True
+    hist = state.history
+    hn = [norm(h) for h in hist]
+    n = 0
+    for f in state.frames:
+        for (body, _, _), i in zip(f["items"], f.get("pos", [])):
+            for j, h in enumerate(hist):
+                if j == i or hn[j] == hn[i]:
+                    continue
+                n += 1
+                if n > budget:
+                    return False
+                if equivalent(logic, decls, body, h):
+                    return True
+    return False
+
+
+def false_assertion_and_first_popped(state, logic, decls):
+    """a current assertion is unsatisfiable on its own (it is, or simplifies to, false) and the first assertion of the script
+    has been popped: the initial unit clause (not false) of MainSolver::initialize carries partition bit 0"""
+    if not state.history:
+        return False
+    first_current = any(i == 0 for f in state.frames for i in f.get("pos", []))
+    if first_current:
+        return False
+    for f in state.frames:
+        for body, _, _ in f["items"]:
+            a = _memo(("alone", logic, tuple(decls), sx_str(sc.strip_named(body))),
+                      lambda b=body: sc.ref_answer("z3", lg(logic), decls, [b], timeout=30)[0])
+            if a == "unsat":
+                return True
+    return False
+
+
 def has_nonbool_ite(t, sig):
     if isinstance(t, list) and t:
         if t[0] == "ite" and len(t) == 4:
